@@ -37,9 +37,9 @@ class PList:
 
 class Seq:
     """list of symbolic length n whose element i is fn(i)  (comprehension over range(n), [x]*n, external symbolic list)"""
-    __slots__ = ("n", "fn", "owner", "tag")
+    __slots__ = ("n", "fn", "owner", "tag", "conds")
 
-    def __init__(s, n, fn, owner='fresh', tag=None): s.n = n; s.fn = fn; s.owner = owner; s.tag = tag
+    def __init__(s, n, fn, owner='fresh', tag=None): s.n = n; s.fn = fn; s.owner = owner; s.tag = tag; s.conds = None
     def __repr__(s): return "Seq(len=%s)" % (s.n,)
 
 
@@ -432,7 +432,7 @@ class Exec:
         if not s.decide(cmp('>', seq.n, 0), st): return          # empty list: the loop does nothing
         i = s.fresh("i", 'I')
         s.assume(band(cmp('>=', i, 0), cmp('<', i, seq.n)), 'generic element index')
-        el = seq.fn(i)
+        el = s.seq_get(seq, i)
         inv = s.read_invariant(el)
         if inv is not None: s.assume(inv, 'class invariant of a list element')
         s.assign(st.target, el, env)
@@ -645,17 +645,38 @@ class Exec:
         if isinstance(it, _Range):
             if isinstance(it.n, int): return PList([elt(i) for i in range(it.start, it.n)])
             if it.start != 0: raise Unsupported("range start in comprehension", e)
-            s.probe_elements(it.n, lambda i: elt(i), e)
-            return Seq(it.n, lambda i: elt(i))
+            return s.eager_seq(it.n, lambda i: elt(i), e)
         if isinstance(it, PList): return PList([elt(v) for v in it.items])
         if isinstance(it, (list, tuple)): return PList([elt(v) for v in it])
         if isinstance(it, Vec): return PList([elt(v) for v in it.xs])
-        if isinstance(it, Seq):
-            s.probe_elements(it.n, lambda i: elt(s.with_invariant(it.fn(i))), e)
-            return Seq(it.n, lambda i: elt(it.fn(i)))
-        if isinstance(it, Post): return Seq(it.length(), lambda i: elt(s.index(it, i, e)))
+        if isinstance(it, Seq): return s.eager_seq(it.n, lambda i: elt(s.with_invariant(s.seq_get(it, i))), e)
+        if isinstance(it, Post): return s.eager_seq(it.length(), lambda i: elt(s.index(it, i, e)), e)
         if isinstance(it, (set, frozenset)): return PList([elt(v) for v in sorted(it, key=repr)])
         raise Unsupported("comprehension over %r" % (it,), e)
+
+    def seq_get(s, seq, i):
+        """element i of a symbolic-length list; for lists built by a comprehension the conditions under which every element was
+        evaluated normally are instantiated for this index"""
+        v = seq.fn(i)
+        conds = getattr(seq, 'conds', None)
+        if conds:
+            for c in conds(i): s.assume(c, 'element of a comprehension was evaluated normally')
+        return v
+
+    def eager_seq(s, n, f, node):
+        """[f(i) for i in <symbolic range>]: the element is evaluated ONCE, now, for a generic index (heap reads happen at
+        creation time, exceptions raised by an element are path outcomes); element j is the substitution instance"""
+        if s.speculative: raise _NoFork()
+        if not s.decide(cmp('>', n, 0), node): return Seq(lift(0), lambda i: Opaque('element of an empty list'))
+        iv = s.fresh("ix", 'I')
+        s.assume(band(cmp('>=', iv, 0), cmp('<', iv, n)), 'generic comprehension index')
+        mark = len(s.pc)
+        proto = f(iv)
+        delta = list(s.pc[mark:])
+        name = iv.a[0]
+        q = Seq(n, lambda i, proto=proto, name=name: subst_value(proto, {name: lift(i)}))
+        q.conds = (lambda i, delta=delta, name=name: [ir.subst(c, {name: lift(i)}) for c in delta])
+        return q
 
     def probe_elements(s, n, f, node):
         """a comprehension over a symbolic-length list is built lazily; evaluate its element once for a generic index so
@@ -716,7 +737,7 @@ class Exec:
             if isinstance(i, int) and i < 0:
                 i2 = b.n + i; inb = cmp('>=', i2, 0)
             if not s.decide(inb, node): raise Raised('IndexError', node=node)
-            return b.fn(i2)
+            return s.seq_get(b, i2)
         if isinstance(b, Grow): return s.grow_index(b, i, node)
         if isinstance(b, Post):
             i2 = lift(i)
@@ -953,6 +974,20 @@ def concat(a, b):
     lb = lift(len(b.items)) if isinstance(b, PList) else b.n
     fa = (lambda i, a=a: Opaque("concat element")) if isinstance(a, PList) else a.fn
     raise Unsupported("concatenation of symbolic-length lists")
+
+
+def subst_value(v, m):
+    if isinstance(v, T): return ir.subst(v, m)
+    if isinstance(v, B): return ir.subst(v, m)
+    if isinstance(v, tuple): return tuple(subst_value(x, m) for x in v)
+    if isinstance(v, Obj): return Obj(v.cls, {k: subst_value(x, m) for k, x in v.f.items()}, owner=v.owner, tag=v.tag)
+    if isinstance(v, PList): return PList([subst_value(x, m) for x in v.items], owner=v.owner)
+    if isinstance(v, Vec): return Vec([subst_value(x, m) for x in v.xs])
+    if isinstance(v, Seq):
+        q = Seq(subst_value(v.n, m) if isinstance(v.n, T) else v.n, lambda i, v=v: subst_value(v.fn(i), m), owner=v.owner, tag=v.tag)
+        if v.conds: q.conds = lambda i, v=v: [ir.subst(c, m) for c in v.conds(i)]
+        return q
+    return v
 
 
 def template(v, prefix):
